@@ -96,6 +96,39 @@ pub fn main(args: &[String]) -> i32 {
         if hw != built.hit_windows {
             bad("hit_windows_vs_build", format!("{:?}", built.hit_windows), format!("{hw:?}"));
         }
+        // the same configuration reached from a Beatmap value (its mode, its convert flag, its four values; the scenario's value
+        // written into the map when it is given without mods, else set on the builder afterwards): map.attributes() = the
+        // hand-configured builder
+        {
+            let mut m = Beatmap::default();
+            m.mode = gm(&sc.mode);
+            m.is_convert = sc.conv;
+            if !sc.wm && (0.0..=10.0).contains(&v) {
+                match sc.field.as_str() {
+                    "ar" => m.ar = v,
+                    "od" => m.od = v,
+                    "cs" => m.cs = v,
+                    _ => m.hp = v,
+                }
+            }
+            let mut fm = m.attributes().mods(bits(&sc.mods)).clock_rate(f(sc.rate));
+            if sc.wm || !(0.0..=10.0).contains(&v) {
+                fm = match sc.field.as_str() {
+                    "ar" => fm.ar(v, sc.wm),
+                    "od" => fm.od(v, sc.wm),
+                    "cs" => fm.cs(v, sc.wm),
+                    _ => fm.hp(v, sc.wm),
+                };
+            }
+            // the other three values are the defaults (5.0) on both sides
+            if let Ok((hw2, built2)) = guarded(|| (fm.hit_windows(), fm.build())) {
+                if hw2 != hw || format!("{built2:?}") != format!("{built:?}") {
+                    bad("builder_from_map_vs_hand_configured", format!("{hw:?} {built:?}"), format!("{hw2:?} {built2:?}"));
+                }
+            } else {
+                bad("panic", "no panic".into(), "panic (builder from a map)".into());
+            }
+        }
         let e = &sc.exp;
         match sc.field.as_str() {
             "ar" => {
